@@ -324,13 +324,17 @@ func (e *Encoder) putMatchTail(dist uint32, n int, posState uint32) {
 }
 
 // PutMarker encodes the end marker.
-func (e *Encoder) PutMarker() {
+func (e *Encoder) PutMarker() { e.PutMarkerLen(matchMinLen) }
+
+// PutMarkerLen encodes the end marker with a length field of n (2..273): the marker is the
+// match with distance 2^32-1 whatever its length, although encoders in the field write 2.
+func (e *Encoder) PutMarkerLen(n int) {
 	m := e.M
 	pbMask := uint32(1)<<uint(m.P.PB) - 1
 	posState := uint32(e.W.avail()) & pbMask
 	e.rc.bit(&m.isMatch[m.State][posState], 1)
 	e.rc.bit(&m.isRep[m.State], 0)
-	e.putMatchTail(EOSDist, matchMinLen, posState)
+	e.putMatchTail(EOSDist, n, posState)
 	e.St.Marker = true
 }
 
